@@ -291,4 +291,258 @@ theorem readStr_jstr (s t : Bytes) (hv : Utf8Ok s) : readStr (jstr s ++ t) = som
   simp only [readStr]
   exact readStrBody_escBody s.length s _ t hv (Nat.le_refl _) (by simp; omega)
 
+/-! ### members -/
+
+/-- the value has the member's type, fits it, and (strings) is valid UTF-8 -/
+def fvOk (f : FSpec) : FV → Prop
+  | .n v => f.isNat = true ∧ v ≤ f.max
+  | .s b => f.isNat = false ∧ Utf8Ok b
+
+/-- for every optional member, its prefix differs early from the prefix of every later member (first or not) -/
+def noConfusion : List FSpec → Bool
+  | [] => true
+  | f :: r =>
+    (!f.omitEmpty || r.all (fun g => differEarly (pfx true f.name) (pfx true g.name) &&
+                                     differEarly (pfx false f.name) (pfx false g.name))) && noConfusion r
+
+theorem pfx_head (first : Bool) (name : String) : ∃ u, pfx first name = (if first then 34 else 44) :: u := by
+  cases first <;> simp [pfx]
+
+theorem readLit_pfx_close (first : Bool) (name : String) (t : Bytes) : readLit (pfx first name) (125 :: t) = none := by
+  obtain ⟨u, hu⟩ := pfx_head first name
+  rw [hu]
+  cases first <;> simp [readLit, List.isPrefixOf]
+
+/-- what the members (and the closing brace behind them) start with -/
+theorem renderMembers_head (fvs : List (FSpec × FV)) (first : Bool) (t : Bytes) :
+    renderMembers fvs first ++ t = t ∨
+      ∃ g ∈ fvs.map Prod.fst, ∃ u, renderMembers fvs first ++ t = pfx first g.name ++ u := by
+  induction fvs with
+  | nil => left; rfl
+  | cons p r ih =>
+    obtain ⟨f, v⟩ := p
+    simp only [renderMembers]
+    split
+    · rcases ih with h | ⟨g, hg, u, hu⟩
+      · left; exact h
+      · right; exact ⟨g, by simp at hg ⊢; right; exact hg, u, hu⟩
+    · right
+      exact ⟨f, by simp, v.text ++ renderMembers r false ++ t, by simp [List.append_assoc]⟩
+
+theorem members_next_not_digit (fvs : List (FSpec × FV)) (t : Bytes) :
+    ∀ x, (renderMembers fvs false ++ 125 :: t).head? = some x → isDigit x = false := by
+  intro x hx
+  rcases renderMembers_head fvs false (125 :: t) with h | ⟨g, _, u, hu⟩
+  · rw [h] at hx; simp at hx; subst hx; decide
+  · obtain ⟨w, hw⟩ := pfx_head false g.name
+    rw [hu, hw] at hx; simp at hx; subst hx; decide
+
+theorem noConfusion_later {f : FSpec} {r : List FSpec} (h : noConfusion (f :: r) = true) (ho : f.omitEmpty = true)
+    (g : FSpec) (hg : g ∈ r) (first : Bool) : differEarly (pfx first f.name) (pfx first g.name) = true := by
+  simp only [noConfusion, ho, Bool.not_true, Bool.false_or, Bool.and_eq_true, List.all_eq_true] at h
+  have := h.1 g hg
+  cases first <;> simp_all
+
+theorem parseMembers_render : ∀ (fs : List FSpec) (vs : List FV) (first : Bool) (t : Bytes),
+    fs.length = vs.length → noConfusion fs = true → (∀ p ∈ fs.zip vs, fvOk p.1 p.2) →
+    parseMembers fs first (renderMembers (fs.zip vs) first ++ 125 :: t) = some (vs, 125 :: t) := by
+  intro fs
+  induction fs with
+  | nil =>
+    intro vs first t hl _ _
+    cases vs with
+    | nil => rfl
+    | cons _ _ => simp at hl
+  | cons f fs ih =>
+    intro vs first t hl hnc hok
+    cases vs with
+    | nil => simp at hl
+    | cons v vs =>
+      simp only [List.length_cons, Nat.add_right_cancel_iff] at hl
+      have hnc' : noConfusion fs = true := by simp only [noConfusion, Bool.and_eq_true] at hnc; exact hnc.2
+      have hok' : ∀ p ∈ fs.zip vs, fvOk p.1 p.2 := fun p hp => hok p (by simp [hp])
+      have hfv : fvOk f v := hok (f, v) (by simp)
+      simp only [List.zip_cons_cons, renderMembers]
+      by_cases hom : (f.omitEmpty && v.isZero) = true
+      · -- the member is omitted: what follows is a later member's prefix or the closing brace
+        simp only [hom, if_true]
+        simp only [Bool.and_eq_true] at hom
+        have hnone : readLit (pfx first f.name) (renderMembers (fs.zip vs) first ++ 125 :: t) = none := by
+          rcases renderMembers_head (fs.zip vs) first (125 :: t) with h | ⟨g, hg, u, hu⟩
+          · rw [h]; exact readLit_pfx_close first f.name t
+          · rw [hu]
+            have hg' : g ∈ fs := by
+              obtain ⟨p, hp, rfl⟩ := List.mem_map.mp hg
+              exact (List.of_mem_zip hp).1
+            exact readLit_differ (noConfusion_later hnc hom.1 g hg' first) u
+        have hz : f.zero = v := by
+          cases v with
+          | n x => simp only [fvOk] at hfv; simp [FV.isZero] at hom; simp [FSpec.zero, hfv.1, hom.2]
+          | s b => simp only [fvOk] at hfv; simp [FV.isZero] at hom; simp [FSpec.zero, hfv.1, hom.2]
+        simp only [parseMembers, hnone, hom.1, if_true, ih vs first t hl hnc' hok', Option.map, hz]
+      · simp only [hom, Bool.false_eq_true, if_false]
+        have hrd : readValue f (v.text ++ (renderMembers (fs.zip vs) false ++ 125 :: t)) =
+            some (v, renderMembers (fs.zip vs) false ++ 125 :: t) := by
+          cases v with
+          | n x =>
+            simp only [fvOk] at hfv
+            simp only [readValue, hfv.1, if_true, FV.text,
+              readNat_jnat x f.max hfv.2 _ (members_next_not_digit (fs.zip vs) t), Option.map]
+          | s b =>
+            simp only [fvOk] at hfv
+            simp only [readValue, hfv.1, Bool.false_eq_true, if_false, FV.text, readStr_jstr b _ hfv.2, Option.map]
+        rw [List.append_assoc, List.append_assoc]
+        simp only [parseMembers, readLit_append, hrd, ih vs false t hl hnc' hok', Option.map]
+
+/-! ### the document -/
+
+/-- keystore values that survive export: strings valid UTF-8, numbers within their Go types -/
+structure KsOk (k : KeystoreJ) : Prop where
+  remarks : Utf8Ok k.remarks
+  version : k.version ≤ 255
+  cipher : Utf8Ok k.cipher
+  entropyEnc : Utf8Ok k.entropyEnc
+  kdf : Utf8Ok k.kdf
+  pubParams : Utf8Ok k.pubParams
+  privParams : Utf8Ok k.privParams
+  cryptoKeyPubEnc : Utf8Ok k.cryptoKeyPubEnc
+  cryptoKeyPrivEnc : Utf8Ok k.cryptoKeyPrivEnc
+  cryptoKeyEntropyEnc : Utf8Ok k.cryptoKeyEntropyEnc
+  purpose : k.purpose ≤ 4294967295
+  coin : k.coin ≤ 4294967295
+  account : k.account ≤ 4294967295
+  externalChildNum : k.externalChildNum ≤ 4294967295
+  internalChildNum : k.internalChildNum ≤ 4294967295
+
+theorem specs_noConfusion : noConfusion cryptoSpec = true ∧ noConfusion hdSpec = true := by decide
+
+/-- the exported text determines the keystore value: reading `render k` back gives `k` -/
+theorem parseKeystore_render (k : KeystoreJ) (h : KsOk k) : parseKeystore (render k) = some k := by
+  have hc : ∀ p ∈ cryptoSpec.zip (cryptoVals k), fvOk p.1 p.2 := by
+    intro p hp
+    simp only [cryptoSpec, cryptoVals, List.zip_cons_cons, List.zip_nil_right, List.mem_cons, List.not_mem_nil, or_false] at hp
+    rcases hp with rfl | rfl | rfl | rfl | rfl | rfl | rfl | rfl | rfl <;>
+      first
+        | exact ⟨rfl, h.version⟩ | exact ⟨rfl, h.cipher⟩ | exact ⟨rfl, h.entropyEnc⟩ | exact ⟨rfl, h.kdf⟩
+        | exact ⟨rfl, h.pubParams⟩ | exact ⟨rfl, h.privParams⟩ | exact ⟨rfl, h.cryptoKeyPubEnc⟩
+        | exact ⟨rfl, h.cryptoKeyPrivEnc⟩ | exact ⟨rfl, h.cryptoKeyEntropyEnc⟩
+  have hh : ∀ p ∈ hdSpec.zip (hdVals k), fvOk p.1 p.2 := by
+    intro p hp
+    simp only [hdSpec, hdVals, List.zip_cons_cons, List.zip_nil_right, List.mem_cons, List.not_mem_nil, or_false] at hp
+    rcases hp with rfl | rfl | rfl | rfl | rfl <;>
+      first
+        | exact ⟨rfl, h.purpose⟩ | exact ⟨rfl, h.coin⟩ | exact ⟨rfl, h.account⟩
+        | exact ⟨rfl, h.externalChildNum⟩ | exact ⟨rfl, h.internalChildNum⟩
+  have l3 : asc "},\"hdPath\":{" = 125 :: asc ",\"hdPath\":{" := by decide
+  have l4 : asc "}}" = [125, 125] := by decide
+  have hm1 := fun t => parseMembers_render cryptoSpec (cryptoVals k) true t rfl specs_noConfusion.1 hc
+  have hm2 := fun t => parseMembers_render hdSpec (hdVals k) true t rfl specs_noConfusion.2 hh
+  have e : render k = asc "{\"remarks\":" ++ (jstr k.remarks ++ (asc ",\"crypto\":{" ++
+      (renderMembers (cryptoSpec.zip (cryptoVals k)) true ++ 125 :: (asc ",\"hdPath\":{" ++
+        (renderMembers (hdSpec.zip (hdVals k)) true ++ 125 :: [125]))))) := by
+    simp only [render, l3, l4, List.append_assoc, List.cons_append]
+  rw [e]
+  simp only [parseKeystore, readLit_append, readStr_jstr _ _ h.remarks, hm1, bind, Option.bind]
+  have r3 : readLit (asc "},\"hdPath\":{") (125 :: (asc ",\"hdPath\":{" ++
+      (renderMembers (hdSpec.zip (hdVals k)) true ++ 125 :: [125]))) =
+      some (renderMembers (hdSpec.zip (hdVals k)) true ++ 125 :: [125]) := by
+    rw [l3, ← List.cons_append]; exact readLit_append _ _
+  have r4 : readLit (asc "}}") (125 :: [125]) = some [] := by rw [l4]; exact readLit_append [125, 125] []
+  simp only [r3, hm2, r4]
+  rfl
+
+/-- two keystore values with the same exported text are the same value -/
+theorem render_injective (k k' : KeystoreJ) (h : KsOk k) (h' : KsOk k') (e : render k = render k') : k = k' := by
+  have := parseKeystore_render k h
+  rw [e, parseKeystore_render k' h'] at this
+  exact (Option.some.inj this).symm
+
+/-- what `export` produces is always within the types (hex strings and the two constants are ASCII) when the remark is
+    valid UTF-8: hex digits are valid UTF-8 -/
+theorem utf8Ok_hexEnc (bs : Bytes) : Utf8Ok (hexEnc bs) := by
+  unfold Utf8Ok
+  induction bs with
+  | nil => rfl
+  | cons b bs ih =>
+    have hb := u8_lt b
+    have h1 : ∀ n, n < 16 → (hexDigit n).toNat < 128 := by decide
+    have a1 := h1 (b.toNat / 16) (by omega)
+    have a2 := h1 (b.toNat % 16) (by omega)
+    simp only [hexEnc, List.length_cons, validUtf8, utf8Size, a1, a2, if_true, Nat.sub_self, List.drop_zero]
+    exact ih
+
+theorem u32Of_lt {bs : Bytes} {v : Nat} (h : u32Of bs = .ok v) : v ≤ 4294967295 := by
+  by_cases hl : bs.length < 4
+  · rw [u32Of_short bs hl] at h; cases h
+  · rw [u32Of_long bs (by omega)] at h
+    cases h
+    have := ofLE_lt (bs.take 4)
+    have hl4 : (bs.take 4).length = 4 := by simp; omega
+    rw [hl4] at this
+    have e : (256 : Nat) ^ 4 = 4294967296 := by decide
+    omega
+
+/-- whatever `export` returns lies within the Go types, provided the stored remark is valid UTF-8 -/
+theorem exportKs_ksOk (b : Bucket) (purpose coin : Nat) (k : KeystoreJ) (hp : purpose ≤ 4294967295)
+    (hc : coin ≤ 4294967295) (hr : Utf8Ok ((fetchRemark b).getD [])) (he : exportKs b purpose coin = .ok k) : KsOk k := by
+  unfold exportKs at he
+  simp only [bind, Except.bind, pure, Except.pure] at he
+  cases hu : fetchAccountUsage b with
+  | error e => simp [hu] at he
+  | ok usage =>
+    cases hcn : fetchChildNum b with
+    | error e => simp [hu, hcn] at he
+    | ok ie =>
+      cases hm : fetchMasterKeyParams b with
+      | error e => simp [hu, hcn, hm] at he
+      | ok mp =>
+        cases hk : fetchCryptoKeys b with
+        | error e => simp [hu, hcn, hm, hk] at he
+        | ok ck =>
+          simp only [hu, hcn, hm, hk, Except.ok.injEq] at he
+          subst he
+          have husage : usage ≤ 4294967295 := by
+            unfold fetchAccountUsage fetchU32 at hu
+            cases hg : bget b (key MW.Gen.KsCodec.accountUsageName) with
+            | none => simp [hg] at hu
+            | some v => rw [hg] at hu; exact u32Of_lt hu
+          have hie : ie.1 ≤ 4294967295 ∧ ie.2 ≤ 4294967295 := by
+            unfold fetchChildNum at hcn
+            cases h1 : bget b (key MW.Gen.KsCodec.externalChildNumName) with
+            | none => simp [h1] at hcn
+            | some ex =>
+              cases h2 : bget b (key MW.Gen.KsCodec.internalChildNumName) with
+              | none => simp [h1, h2] at hcn
+              | some inn =>
+                simp only [h1, h2, bind, Except.bind, pure, Except.pure] at hcn
+                cases hi : u32Of inn with
+                | error e => simp [hi] at hcn
+                | ok i =>
+                  cases hx : u32Of ex with
+                  | error e => simp [hi, hx] at hcn
+                  | ok e' =>
+                    simp only [hi, hx, Except.ok.injEq] at hcn
+                    subst hcn
+                    exact ⟨u32Of_lt hi, u32Of_lt hx⟩
+          have hver : fetchVersion b ≤ 255 := by
+            unfold fetchVersion
+            split
+            · rename_i x _ _; have := u8_lt x; omega
+            · omega
+          have c1 : Utf8Ok (asc MW.Gen.KsCodec.exportCipher) := by unfold Utf8Ok; decide
+          have c2 : Utf8Ok (asc MW.Gen.KsCodec.exportKDF) := by unfold Utf8Ok; decide
+          have c3 : Utf8Ok [] := by unfold Utf8Ok; decide
+          exact {
+            remarks := hr, version := hver, cipher := c1, entropyEnc := utf8Ok_hexEnc _, kdf := c2,
+            pubParams := c3, privParams := utf8Ok_hexEnc _, cryptoKeyPubEnc := c3,
+            cryptoKeyPrivEnc := c3, cryptoKeyEntropyEnc := utf8Ok_hexEnc _, purpose := hp, coin := hc,
+            account := husage, externalChildNum := hie.2, internalChildNum := hie.1 }
+
+/-- end to end at the text level: the file `export` writes, read back, is the exported value – for EVERY account bucket
+    whose remark is valid UTF-8 -/
+theorem export_text_roundtrip (b : Bucket) (purpose coin : Nat) (k : KeystoreJ) (hp : purpose ≤ 4294967295)
+    (hc : coin ≤ 4294967295) (hr : Utf8Ok ((fetchRemark b).getD [])) (he : exportKs b purpose coin = .ok k) :
+    parseKeystore (render k) = some k :=
+  parseKeystore_render k (exportKs_ksOk b purpose coin k hp hc hr he)
+
 end MW.KsCodecL
